@@ -128,6 +128,10 @@ RULE_BREAKERS = [
     ('orderby-pos-duplicate-names', 'SELECT i AS x, j AS x FROM #t ORDER BY 2', None),
     ('having-not-aggregate', 'SELECT s, sum(i) FROM #t GROUP BY s HAVING s = "a"', None),
     ('pivot-same', 'SELECT s, t, sum(i) FROM #t GROUP BY s, t PIVOT BY s, s', None),
+    ('pivot-same-by-position', 'SELECT s, t, sum(i) FROM #t GROUP BY s, t PIVOT BY s, 1', None),
+    ('pivot-same-by-position-2', 'SELECT s, t, sum(i) FROM #t GROUP BY s, t PIVOT BY 2, t', None),
+    ('pivot-same-positions', 'SELECT s, t, sum(i) FROM #t GROUP BY s, t PIVOT BY 1, 1', None),
+    ('valid-pivot-mixed-spelling', 'SELECT s, t, sum(i) FROM #t GROUP BY s, t PIVOT BY 1, t', None),
     ('pivot-not-grouped', 'SELECT s, sum(i), count(*) FROM #t GROUP BY s PIVOT BY 1, 2', None),
     ('pivot-range', 'SELECT s, t, sum(i) FROM #t GROUP BY s, t PIVOT BY 1, 9', None),
     ('pivot-unknown', 'SELECT s, t, sum(i) FROM #t GROUP BY s, t PIVOT BY s, zz', None),
@@ -266,8 +270,50 @@ def mutation_layer(ctx, tables, ncases):
         span_oracle(ctx, text, params)
 
 
+CLAUSE_STATEMENTS = [
+    # (text, must be accepted)
+    ('SELECT account FROM OPEN ON 2020-02-01 CLOSE ON 2020-02-01', True),
+    ('SELECT account FROM OPEN ON 2020-02-01 CLOSE', True),
+    ('SELECT account FROM year > 2000 OPEN ON 2020-02-01 CLOSE CLEAR', True),
+    ('SELECT account FROM CLOSE CLEAR', True),
+    ('BALANCES FROM OPEN ON 2020-02-01 CLOSE', True),
+    ('JOURNAL FROM OPEN ON 2020-02-01 CLOSE CLEAR', True),
+    ('PRINT FROM OPEN ON 2020-02-01 CLOSE', True),
+    ('SELECT account FROM OPEN ON 2020-02-01 CLOSE ON 2020-01-31', False),
+    ('BALANCES FROM OPEN ON 2020-02-01 CLOSE ON 2020-01-31', False),
+    ('JOURNAL FROM year > 2000 OPEN ON 2020-02-01 CLOSE ON 2020-01-31 CLEAR', False),
+    ('PRINT FROM OPEN ON 2020-02-01 CLOSE ON 2020-01-31', False),
+    ('PRINT FROM year > 2000 OPEN ON 2020-02-01 CLOSE ON 2019-01-31', False),
+]
+
+
+def clause_layer(ctx):
+    """OPEN / CLOSE / CLEAR on the real ledger tables (the harness tables do not implement them): valid combinations are
+    accepted, CLOSE before OPEN is a CompilationError for every statement kind, nothing else is raised"""
+    import ledgers
+    text, entries, errors, options = ledgers.gen_ledger(ctx.rng, ntxn=6)
+    conn = ledgers.connect(entries, errors, options)
+    for text_, valid in CLAUSE_STATEMENTS:
+        ctx.count('clauses')
+        ctx.evaluations += 1
+        try:
+            compiler.compile(conn, parser.parse(text_))
+            out = 'OK'
+        except compiler.CompilationError:
+            out = 'ERR compile'
+        except beanquery.ProgrammingError as exc:
+            out = 'ERR %s' % type(exc).__name__
+        except Exception as exc:  # noqa: BLE001
+            out = 'ERR py:%s' % type(exc).__name__
+        want = 'OK' if valid else 'ERR compile'
+        if out != want:
+            name = 'non-dbapi-exception:%s:clauses' % out[7:] if out.startswith('ERR py:') else 'clauses-misclassified'
+            ctx.record_violation(name, '%s -> %s (expected %s)' % (text_, out, want), payload={'text': text_})
+
+
 def run(ctx):
     rng = ctx.rng
+    clause_layer(ctx)
     table = std_table(rng, nrows=3)
     # FROM <expression> resolves against the connection's default table 'postings'
     postings = impl.HTable('postings', table.coldefs, table.rows)
